@@ -326,7 +326,7 @@ impl Prop for C04Exhaustive {
 
 pub fn parts() -> Vec<Box<dyn DynPart>> {
     vec![
-        Box::new(Gen::new(C04, 2_000_000, 200_000_000)),
+        Box::new(Gen::new(C04, 6_000_000, 600_000_000)),
         Box::new(Gen::listed(C04Exhaustive, exhaustive_space)),
     ]
 }
